@@ -28,6 +28,8 @@ type c17World struct {
 	idseed uint64
 	// overHTTP counts the collection calls that went through the HTTP route
 	overHTTP int
+	// confusable: the second collection's name equals the first one's up to blanks / letter case
+	confusable bool
 }
 
 func newC17World(idseed uint64, kinds []sim.Kind) (*c17World, error) {
@@ -75,6 +77,25 @@ func (cw *c17World) collectionCall(name string, reset bool) error {
 func (cw *c17World) addCollection() (*l1World, error) {
 	// (names vary with the drawn id seed, see l1NameSuffix; one collection is a prefix of another's name)
 	name := fmt.Sprintf("c%d_%d", cw.seq, len(cw.cols)) + l1NameSuffix(cw.idseed/13+uint64(len(cw.cols)), true)
+	if len(cw.cols) == 1 && (cw.idseed/3)%3 == 0 {
+		// a third of the worlds: the second collection's name is the first one's up to blanks or letter case -
+		// different names are different collections, whatever a lenient lookup makes of them
+		first := cw.cols[0].col
+		switch (cw.idseed / 9) % 4 {
+		case 0:
+			name = first + " "
+		case 1:
+			name = " " + first
+		case 2:
+			name = first + "\n"
+		default:
+			name = strings.ToUpper(first)
+			if name == first {
+				name = first + "\t"
+			}
+		}
+		cw.confusable = true
+	}
 	if err := cw.collectionCall(name, false); err != nil {
 		return nil, err
 	}
@@ -581,6 +602,9 @@ func TestC17(t *testing.T) {
 		}
 		if foreignAfter {
 			labels = append(labels, "foreign-request-or-reset-after")
+		}
+		if cw.confusable {
+			labels = append(labels, "collection-names-differ-only-by-blanks-or-case")
 		}
 		if cw.overHTTP > 0 {
 			labels = append(labels, "collections-created-or-reset-over-http")
